@@ -3,6 +3,7 @@ package core
 import (
 	"fmt"
 	"os"
+	"runtime/debug"
 	"strconv"
 	"time"
 )
@@ -92,6 +93,10 @@ func RunChild(m *Monitor, o ChildOpts) int {
 	if o.Cur != "" {
 		cur, _ = os.OpenFile(o.Cur, os.O_CREATE|os.O_WRONLY|os.O_TRUNC, 0o644)
 	}
+	// Unbounded recursion ends in Go's fatal "stack exceeds limit"; with the
+	// default 1 GB limit that takes half a minute on a loaded machine. Nothing in
+	// the code under test legitimately needs more than this.
+	debug.SetMaxStack(128 << 20)
 	if m.Setup != nil {
 		m.Setup(o.Tier)
 	}
